@@ -69,6 +69,10 @@ fn sub(run: &Arc<Run>, name: &str, cmd: &mut Command, log: &str, results: &Mutex
     println!("  [{}] exit={} {:.1}s {}", name, code, t0.elapsed().as_secs_f64(), summary);
     if sanitizer {
         run.violation(&format!("c19:memory-error:{}", name), &format!("{} reports a memory error; log {}", name, log), json!({"sub_run": name, "log": log}));
+    } else if code == 1 && summary.contains("BUFFER-ENUM") && summary.contains("failures=") && !summary.contains("failures=0") {
+        // the enumerator bodies are this property's own oracle: a mismatch with the model
+        // under the monitor is a C19 violation like the native one
+        run.violation(&format!("c19:model-mismatch-under-monitor:{}", name.split(':').next().unwrap_or("")), &format!("{}: {}; log {}", name, summary, log), json!({"sub_run": name, "log": log}));
     } else if code != 0 {
         // the sub-check's own verdict belongs to its own property; a crash of the monitor run is machinery
         if !text.contains("VIOLATION property=") && !text.contains("KNOWN-FINDING") {
